@@ -373,6 +373,24 @@ class SStr(Sym):
     def length(self) -> Any:
         return mk_int(z3.Length(self.t))
 
+    # ordering: python compares str by code point and bytes by byte value = SMT-LIB str.< / str.<= (lexicographic by code)
+    def _ord(self, o: Any, fn: Any, what: str) -> Any:
+        if not self._same(o):
+            cur().raise_py(TypeError, "'%s' not supported between instances of '%s' and '%s'" % (what, self.kind, type(o).__name__))
+        return mk_bool(fn(self.t, _s(o)))
+
+    def __lt__(self, o: Any) -> Any:
+        return self._ord(o, lambda a, b: a < b, '<')
+
+    def __le__(self, o: Any) -> Any:
+        return self._ord(o, lambda a, b: a <= b, '<=')
+
+    def __gt__(self, o: Any) -> Any:
+        return self._ord(o, lambda a, b: b < a, '>')
+
+    def __ge__(self, o: Any) -> Any:
+        return self._ord(o, lambda a, b: b <= a, '>=')
+
     def __add__(self, o: Any) -> Any:
         if not self._same(o):
             cur().raise_py(TypeError, 'can only concatenate %s' % self.kind)
